@@ -11,8 +11,31 @@ static LIVE: AtomicUsize = AtomicUsize::new(0);
 static PEAK: AtomicUsize = AtomicUsize::new(0);
 static LARGEST: AtomicUsize = AtomicUsize::new(0);
 
+static TRACE_FROM: AtomicUsize = AtomicUsize::new(usize::MAX);
+thread_local! {
+    static IN_TRACE: std::cell::Cell<bool> = std::cell::Cell::new(false);
+}
+
+/// Debugging aid: print a backtrace for every allocation of at least `bytes` bytes.
+pub fn trace_from(bytes: usize) {
+    TRACE_FROM.store(bytes, Ordering::Relaxed);
+}
+
+fn maybe_trace(size: usize) {
+    if size >= TRACE_FROM.load(Ordering::Relaxed) {
+        let _ = IN_TRACE.try_with(|f| {
+            if !f.get() {
+                f.set(true);
+                eprintln!("ALLOCATION of {} bytes at\n{}", size, std::backtrace::Backtrace::force_capture());
+                f.set(false);
+            }
+        });
+    }
+}
+
 #[inline]
 fn on_alloc(size: usize) {
+    maybe_trace(size);
     let live = LIVE.fetch_add(size, Ordering::Relaxed) + size;
     PEAK.fetch_max(live, Ordering::Relaxed);
     LARGEST.fetch_max(size, Ordering::Relaxed);
@@ -45,6 +68,7 @@ unsafe impl GlobalAlloc for Counting {
             on_alloc(new - l.size());
             // a growing buffer asks for `new` bytes in one piece
             LARGEST.fetch_max(new, Ordering::Relaxed);
+            maybe_trace(new);
         } else {
             LIVE.fetch_sub(l.size() - new, Ordering::Relaxed);
         }
